@@ -26,8 +26,11 @@ DT_MAX = {"float64": sys.float_info.max, "float32": 3.4028234663852886e+38, "int
 DT_MIN = {"int32": -2 ** 31, "uint8": 0, "int16": -2 ** 15, "int64": -2 ** 63}
 BAD_LON = [200.0, 180.00000000000003, -180.00000000000003, -180.5, 360.0, NAN, INF, -INF, 1e30, -1e30]
 BAD_LAT = [90.00000000000001, -90.00000000000001, 91.0, -100.0, NAN, INF, -INF, 1e30]
-TOL_F64 = ((10 ** 12 + 1) ** 2, 10 ** 24)
-TOL_F32 = ((10 ** 5 + 1) ** 2, 10 ** 10)
+# (a, b, k): relative slack a/b on squared distances; k >= 0 adds the absolute slack (2^-k m)^2 (k < 0: none).
+# binary32 trees need the absolute part: squares of coordinate differences below ~1e-22 m underflow to 0 in float32,
+# so a source at distance 1e-25 m ties with an exactly coincident one (observed).
+TOL_F64 = ((10 ** 12 + 1) ** 2, 10 ** 24, -1)
+TOL_F32 = ((10 ** 5 + 1) ** 2, 10 ** 10, 10)
 
 
 # ------------------------------------------------------------------------------------------ generators
@@ -446,10 +449,10 @@ def coq_case(case, obs):
     lit = fhex if isf else (lambda v: "(%d)" % v)
     k, kk = d["k"], max(d["k"], 1)
     single = obs.get("xyz_dtype") == "float32"
-    a, b = TOL_F32 if single else TOL_F64
-    geo = "(mk_geo %s %s %s %s %s %s %s %s %s %s (%d, %d))" % (
+    a, b, kabs = TOL_F32 if single else TOL_F64
+    geo = "(mk_geo %s %s %s %s %s %s %s %s %s %s (%d, %d, (%d)))" % (
         fl(obs["src_lons"]), fl(obs["src_lats"]), fl(obs["tgt_lons"]), fl(obs["tgt_lats"]), bl(obs["vii"]), bl(obs["voi"]),
-        zl(obs["idx"]), xl(obs["src_xyz"]), xl(obs["tgt_xyz"]), fhex(float(case["radius"])), a, b)
+        zl(obs["idx"]), xl(obs["src_xyz"]), xl(obs["tgt_xyz"]), fhex(float(case["radius"])), a, b, kabs)
     rows = "[" + ";".join("[" + ";".join(lit(v) for v in row) + "]" for row in d["values"]) + "]"
     mrows = "None" if d["mask"] is None else "(Some [" + ";".join(bl(m) for m in d["mask"]) + "])"
     fill = "None" if case["fill"] is None else "(Some %s)" % lit(float(case["fill"]) if isf else case["fill"])
@@ -521,7 +524,7 @@ def run(ctx):
                 "geo-shaped, plain or masked, fill number / NaN / None.  A case is non-trivial when at least two valid sources compete and at "
                 "least one target receives a source value; distinct = distinct canonical inputs.  Plus integer-lattice kd-tree queries "
                 "(ties, distance == bound) compared with the brute-force reference.")
-    ncases = ctx.n(700, 8000)
+    ncases = ctx.n(700, 5000)
     cases, tagl = [], []
     for c, tg in fixed_cases():
         cases.append(c)
@@ -647,7 +650,7 @@ def run(ctx):
     ctx.traces = len(cases)
     ctx.notes.append("kd-tree (pykdtree) is an oracle: the theorems hold for any query function meeting knn_spec_tol; each observed index array is "
                      "checked against that contract on exact rational squared distances of the implementation's own cartesian coordinates "
-                     "(relative slack 1e-12 on distances for float64 trees, 1e-5 for float32)")
+                     "(relative slack 1e-12 on distances for float64 trees; 1e-5 plus an absolute 2^-10 m for float32 trees)")
     ctx.notes.append("cos/sin (numexpr/libm) are an oracle: cartesian coordinates are compared with a 40-digit recomputation (1e-7 m for float64)")
 
 
